@@ -5,6 +5,7 @@
 -/
 import TvNetTable.Proofs.TableLemmas
 import TvNetTable.Proofs.Egress
+import TvNetTable.Proofs.Reach
 
 namespace TV
 namespace C17
@@ -306,6 +307,41 @@ theorem fabric (f : Fabric) (p : Pkt) :
 
 example : NoLoopback ((({} : Fabric).addHost [⟨false, 10⟩]).addHost [⟨false, 20⟩, ⟨true, 20⟩]) := by decide
 example : ((({} : Fabric).addHost [⟨false, 10⟩]).addHost [⟨false, 20⟩]).hostForIp ⟨false, 20⟩ = some 1 := by decide
+
+/-! ### the binding index in every reachable state -/
+
+/-- **Index invariant, all reachable states.** Start from the empty fabric and apply any list of
+    operations — adding hosts (any repair flags), any application call on any host (`bind` with
+    explicit port or port 0, `TcpListener::bind`, UDP connect / send / receive, `connect` with
+    its implicit bind, `accept`, `close`), delivery of any packet, `egress_all`, pumping the
+    wire.  In every host of the resulting fabric: every `bindings` entry is non-empty and each
+    fd in it is a socket of the table bound to exactly that key; every bound socket is listed
+    under its key; keys are distinct; fds are unique and below the counter. -/
+theorem index_invariant (ops : List FOp) :
+    ∀ k ∈ (ops.foldl FOp.apply ({} : Fabric)).hosts, TInv k.tbl :=
+  finv_run ops
+
+/-- The same for one kernel in an arbitrary environment (any packets may arrive). -/
+theorem index_invariant_kernel (k : Kernel) (h0 : TInv k.tbl) (ops : List KOp) :
+    TInv ((KState.run ⟨k, []⟩ ops).k.tbl) :=
+  kinv_run ⟨k, []⟩ ops h0
+
+/-- Consequence: `bind` conflicts are conflicts with *sockets of the table*. -/
+theorem conflict_iff_socket (t : Table) (h : TInv t) (key : BindKey) :
+    (∃ e ∈ t.bindings, Spec.conflicts e.1 key = true) ↔
+      (∃ s ∈ t.socks, ∃ b, s.bound = some b ∧ Spec.conflicts b key = true) := by
+  constructor
+  · rintro ⟨e, he, hc⟩
+    obtain ⟨x, hx⟩ := List.exists_mem_of_ne_nil _ (h.nonempty e he)
+    obtain ⟨s, hs, _, hb⟩ := h.sound e he x hx
+    exact ⟨s, hs, e.1, hb, hc⟩
+  · rintro ⟨s, hs, b, hb, hc⟩
+    obtain ⟨e, he, hk, _⟩ := h.complete s hs b hb
+    exact ⟨e, he, by rw [hk]; exact hc⟩
+
+example : TInv ((KState.run ⟨{ addrs := [⟨false, 10⟩] }, []⟩
+    [.tlisten ⟨false, 10⟩ 80, .bind ⟨false, 0⟩ 0, .connect ⟨⟨false, 10⟩, 80⟩, .egress, .close 1]).k.tbl) :=
+  index_invariant_kernel _ tinv_empty _
 
 /-! ### Finding F-C17-1: an aborted, never-accepted child keeps its binding for ever
 
